@@ -61,7 +61,7 @@ thread_local! {
 }
 const LAYERS: &[&str] = &["met1", "met2", "via1", "poly", "nwell", "M3.pin", "li1"];
 #[derive(Clone, Debug, Default)]
-struct Flags {
+pub struct Flags {
     fine: bool,        // a coordinate that is not a whole number of raw units
     unsupported: bool, // EXCEPTPGNET / non-zero SPACING / DESIGNRULEWIDTH / ITERATE / case-insensitive names
 }
@@ -128,7 +128,7 @@ fn gen_layer_block(src: &mut Src, f: &mut Flags) -> LefLayerGeometries {
         width,
     }
 }
-fn gen_lib(src: &mut Src) -> (LefLibrary, Flags) {
+pub fn gen_lib(src: &mut Src) -> (LefLibrary, Flags) {
     let mut f = Flags::default();
     let allow = src.prob(1, 8);
     ALLOW_FINE.with(|a| a.set(allow));
